@@ -747,6 +747,24 @@ func checkRepliesHoldNoPooledMemory(c *Ctx, rule string) {
 // obtained in the function is known to be non-nil — the non-nil side of a nil test, the true side of a comparison with a
 // sentinel (== or errors.Is) — no return with the nil constant as its error is reachable.  io.EOF is not a failure.
 func checkCloseReportsFailure(c *Ctx, rule string, want func(fn *ssa.Function) bool, floor int) {
+	checkNoNilBehindFailure(c, rule, func(fn *ssa.Function) bool {
+		return strings.Contains(strings.ToLower(fn.Name()), "close") && (want == nil || want(fn))
+	}, floor, "a failure seen by %s is reported",
+		"behind an error that is known to be non-nil this function can return nil: a close that failed (the connection was lost, the handler's Close reported an error) is reported as a success")
+}
+
+// checkRefusedWriteNotCounted (C15.R15): the same for the functions that send a WRITE and
+// return (count, error): behind a STATUS that decoded to a non-nil error — whichever, SSH_FX_EOF included — no return
+// with a nil error is reachable.  A write the server refused and the client counts as done is a stale read for the
+// next reader and bytes missing from the file for the caller.
+func checkRefusedWriteNotCounted(c *Ctx, rule string) {
+	checkNoNilBehindFailure(c, rule, func(fn *ssa.Function) bool {
+		return isClientSide(fn) && len(literalsOf(fn, "sshFxpWritePacket")) > 0
+	}, 1, "a refused WRITE is not counted by %s",
+		"behind a reply that decoded to a non-nil error this function can return a nil error: a WRITE the server refused is counted as written")
+}
+
+func checkNoNilBehindFailure(c *Ctx, rule string, sel func(fn *ssa.Function) bool, floor int, keyFmt, badText string) {
 	p := c.P
 	n := 0
 	isEOFv := func(v ssa.Value) bool {
@@ -775,11 +793,8 @@ func checkCloseReportsFailure(c *Ctx, rule string, want func(fn *ssa.Function) b
 		if outermost(fn) != fn || fn.Package() != p.Sftp || len(fn.Blocks) == 0 {
 			continue
 		}
-		if nm := strings.ToLower(fn.Name()); !strings.Contains(nm, "close") {
-			continue
-		}
 		res := fn.Signature.Results()
-		if res.Len() == 0 || !isErrorType(res.At(res.Len()-1).Type()) || (want != nil && !want(fn)) {
+		if res.Len() == 0 || !isErrorType(res.At(res.Len()-1).Type()) || !sel(fn) {
 			continue
 		}
 		ei := res.Len() - 1
@@ -845,8 +860,7 @@ func checkCloseReportsFailure(c *Ctx, rule string, want func(fn *ssa.Function) b
 				}
 			}
 		})
-		c.check(!bad, rule, "a failure seen by "+fnName(fn)+" is reported", pos, "no nil return behind a non-nil error",
-			"behind an error that is known to be non-nil this function can return nil: a close that failed (the connection was lost, the handler's Close reported an error) is reported as a success")
+		c.check(!bad, rule, fmt.Sprintf(keyFmt, fnName(fn)), pos, "no nil return behind a non-nil error", badText)
 	}
 	c.floor(rule, floor)
 }
@@ -1055,4 +1069,51 @@ func checkHandlersErrorIsTheOneReported(c *Ctx, rule string) {
 		}
 	}
 	c.floor(rule, 2)
+}
+
+// checkNoCloseBetweenEndOfInputAndJoin (C02.R22): when the receive loop of a Serve has ended and the request channel
+// has been closed, the workers still hold requests that were received whole.  Until they have been joined (wg.Wait) the
+// connection stays open: closed in between, those requests are served and their replies cannot be written.
+func checkNoCloseBetweenEndOfInputAndJoin(c *Ctx, rule string) {
+	p := c.P
+	cl := p.Func("(*conn).Close")
+	n := 0
+	for _, name := range []string{"(*Server).Serve", "(*RequestServer).Serve"} {
+		fn := p.Func(name)
+		if fn == nil {
+			c.missing(rule, name)
+			continue
+		}
+		c.looked(name)
+		isJoin := func(in ssa.Instruction) bool {
+			cc := callOf(in)
+			_, plain := in.(*ssa.Call)
+			return plain && cc != nil && isWGCall(cc, "Wait")
+		}
+		isConnClose := func(in ssa.Instruction) bool {
+			cc := callOf(in)
+			if cc == nil {
+				return false
+			}
+			if _, plain := in.(*ssa.Call); !plain {
+				return false
+			}
+			return cl != nil && cc.StaticCallee() == cl
+		}
+		for _, in := range findInstrs(fn, func(in ssa.Instruction) bool {
+			call, ok := in.(*ssa.Call)
+			if !ok || builtinName(&call.Call) != "close" || len(call.Call.Args) != 1 {
+				return false
+			}
+			ch, ok := call.Call.Args[0].Type().Underlying().(*types.Chan)
+			return ok && typeName(ch.Elem()) == "orderedRequest"
+		}) {
+			n++
+			early := reachAvoiding(fn, in, isConnClose, isJoin)
+			c.check(!early, rule, "no Close of the connection between the end of input and the join in "+name, p.Pos(in.Pos()),
+				"the workers are joined first",
+				"the connection can be closed after the request channel was closed and before the workers were joined: requests received whole are served and their replies cannot be written")
+		}
+	}
+	c.floor(rule, 1)
 }
